@@ -200,6 +200,22 @@ def run(desc):
         out.c("live_fault_plans")
         return out.result()
     case, snaps = _sim.build(desc)
+    if desc["idx"] % 4 == 1:
+        # requests of one step batched in one transaction with explicit execute() calls in between
+        from .. import simgen
+
+        rng = simgen.mk_rng(desc["seed"], desc["idx"], 31)
+        for s in case["strategies"]:
+            by_step = {}
+            for a in s["actions"]:
+                by_step.setdefault((a["m"], a["at"]), []).append(a)
+            acts = []
+            for (m, at), items in sorted(by_step.items(), key=lambda kv: kv[0][1]):
+                if len(items) > 1:
+                    acts.append({"m": m, "at": at, "op": "batch", "items": items, "execute_after": sorted(rng.sample(range(len(items)), rng.randint(0, min(2, len(items)))))})
+                else:
+                    acts += items
+            s["actions"] = acts
     tr = simrun.run_case(case)
     out = O.Out(PROPERTY)
     O.abort_violation(tr, out)
